@@ -92,7 +92,8 @@ def classify(ctx, seg, idx, reasons, leg, replay_path=None):
     scn = reset.get("scn", {})
     label = reset.get("label", "")
     if ev.get("ev") == "tamper":
-        sig = "C11/encrypt/tamper/%s/%s/%s/orig|fail->wrong" % (ev.get("cls"), ev.get("tk"), ev.get("pos"))
+        obs = "wrong" if any(o[1] == "wrong" for o in ev.get("out", [])) else "gone" if any(o[1] == "gone" for o in ev.get("out", [])) else "wrong"
+        sig = "C11/encrypt/tamper/%s/%s/%s/orig|fail->%s" % (ev.get("cls"), ev.get("tk"), ev.get("pos"), obs)
         if ev.get("crafted"):
             # re-validate with the deviation the code is believed to have: accepted => attributed to it
             tf = ctx.path("reval_%d.ndjson" % (abs(hash(json.dumps(ev, sort_keys=True))) % 10**9))
